@@ -14,7 +14,7 @@ EST_THEOREMS = ['C02_shellVolume', 'C02_shellVolume_le', 'C02_evidence', 'C02_we
 TIE_THEOREMS = ['C02_tie_formulas', 'C02_tie_structure', 'C02_tie_view']
 MODULE = [('NautilusVerif.Properties.C02', THEOREMS), ('NautilusVerif.Properties.CoreRun', ['Run_phase', 'C02_run']), ('NautilusVerif.Properties.C02Est', EST_THEOREMS),
           ('NautilusVerif.Properties.C02EstTie', TIE_THEOREMS),
-          ('NautilusVerif.Properties.CoreTie', ['Core_tie_updateShellInfo', 'Core_tie_posterior', 'Core_tie_addSamples'])]
+          *common.core_tie(['updateShellInfo', 'posterior', 'addSamples'])]
 FILES = ['nautilus/sampler.py']
 INVARIANTS = ['aligned', 'counts', 'shape']
 
